@@ -66,6 +66,9 @@ fn main() {
         });
         std::process::exit(code);
     }
+    if id == "replay" {
+        std::process::exit(replay(&args[2]));
+    }
     let tier = match std::env::var("VERIF_TIER").ok().as_deref().or(args.get(2).map(|s| s.as_str())) {
         Some("thorough") => Tier::Thorough,
         _ => Tier::Quick,
@@ -100,4 +103,65 @@ fn main() {
         }
     };
     std::process::exit(code);
+}
+
+/// `cte-mc replay <file>`: re-executes the violation recorded in a replay file outside the explorer.
+/// Indexed cases of the supervised fault spaces (C19 / C02 / C14 / C13-BVH / C05 histories) are re-run as that
+/// single case in this process; for the other checks the property's check is re-run at the recorded tier and the
+/// recorded violation key must show up again. Exit 1 = the violation reproduces, 0 = it does not, 2 = cannot replay.
+fn replay(path: &str) -> i32 {
+    let txt = match std::fs::read_to_string(path) {
+        Ok(t) => t,
+        Err(e) => {
+            eprintln!("cannot read {}: {}", path, e);
+            return 2;
+        }
+    };
+    let v: serde_json::Value = match serde_json::from_str(&txt) {
+        Ok(v) => v,
+        Err(e) => {
+            eprintln!("not a replay file: {}", e);
+            return 2;
+        }
+    };
+    let prop = v["property"].as_str().unwrap_or("");
+    let key = v["key"].as_str().unwrap_or("");
+    let tier = v["tier"].as_str().unwrap_or("quick");
+    println!("replaying property={} key={}", prop, key);
+    println!("recorded: {}", v["what"].as_str().unwrap_or(""));
+    let idx = v["replay"]["index"].as_u64();
+    let part = v["replay"]["case"]["part"].as_str().unwrap_or("");
+    let single = match (prop, idx) {
+        ("C19", Some(i)) => Some(c19::worker("c19", i)),
+        ("C02", Some(i)) => Some(c19::worker_c02("c02", i)),
+        ("C14", Some(i)) => Some(c14::worker(&format!("c14{}-{}", match part { "single-edit" => "a", "edit-pair" => "b", _ => "c" }, tier), i)),
+        _ => None,
+    };
+    if let Some(r) = single {
+        println!("single case index {} -> {}", idx.unwrap(), r);
+        let bad = matches!(r["verdict"].as_str(), Some("panic")) || r["n_defects"].as_u64().unwrap_or(0) > 0 || r["non_finite"].as_array().map_or(false, |a| !a.is_empty());
+        println!("{}", if bad { "REPRODUCED" } else { "single case is clean now (census / finiteness comparisons need the full check)" });
+        if bad {
+            return 1;
+        }
+    }
+    // re-run the whole check at the recorded tier and look for the key
+    let exe = std::env::current_exe().unwrap();
+    let out = std::process::Command::new(exe).arg(prop).arg(tier).output();
+    match out {
+        Ok(o) => {
+            let so = String::from_utf8_lossy(&o.stdout);
+            let hit = so.lines().any(|l| l.trim_start().starts_with("key=") && l.contains(key)) || so.lines().any(|l| l.starts_with("KNOWN-FINDING") && l.contains(key));
+            println!("{}", if hit { "REPRODUCED (key reported again by the check)" } else { "NOT REPRODUCED" });
+            if hit {
+                1
+            } else {
+                0
+            }
+        }
+        Err(e) => {
+            eprintln!("cannot re-run the check: {}", e);
+            2
+        }
+    }
 }
